@@ -20,6 +20,7 @@ CORPUS = [
     ("layout", "S: Id+;\nLayout: LayoutItem*;\nLayoutItem: WS | Comment;\nComment: '/*' Corncs '*/' | CommentLine;\nCorncs: Cornc*;\n"
                "Cornc: Comment | NotComment | WS;\nterminals\nId: /[a-z]+/;\nWS: /\\s+/;\nCommentLine: /\\/\\/.*/;\nCS: '/*';\nCE: '*/';\n"
                "NotComment: /((\\*[^\\/])|[^\\s*\\/]|\\/[^\\*])+/;\n", "ab /*/ \n"),
+    ("cyclic", "S: A | Ta;\nA: S {15};\nterminals\nTa: 'a';\n", "a "),
     ("emptyre", "S: A+;\nterminals\nA: /a*/;\n", "ab "),
 ]
 ODD = ["\u0000", "\u0001", "\u001b", "\u007f", "\u0085", " ", "é", "λ", "€", " ", "　", "𝄞", "﻿", "\U0010ffff", "\r", "\n", "\t", " "]
@@ -53,6 +54,13 @@ def oracle(c):
 def known_class(c, k, why):
     if getattr(c, "empty_regex", False) and "timeout" in why:
         return "F14-empty-matching-terminal"
+    if "timeout" in why and c.text.startswith("S: A | Ta;\nA: S {15}"):
+        return "F24-cyclic-grammar-hang"
+    try:
+        if "timeout" in why and lf.parse_bnf(c.text).is_cyclic():
+            return "F24-cyclic-grammar-hang"
+    except Exception:
+        pass
     return None
 
 
